@@ -179,6 +179,10 @@ class SchedStore(QueueStorage):
         self.eng.on_write(tag, id, timestamp)
         if self.eng.cfg.get('late'):
             self.eng.park('write_done', tag)        # the message is in the store, the caller has not been told yet
+        if self.eng.cfg.get('announce_on_write'):
+            # a store that publishes every write just before write() returns: the announcement and the caller's own
+            # hand-over of the id reach the queue in the same scheduling round
+            self.eng.announce_now(tag, id, timestamp)
         return id
 
     def set_timestamp(self, id, timestamp):
@@ -819,6 +823,16 @@ class Engine(object):
         m.known = True
         self.pending.remove(waits[0])
         waits[0].ar.set([(m.due if m.due is not None else CLOCK.now, m.id)])
+        self.labels.add('announce')
+
+    def announce_now(self, tag, id, timestamp):
+        waits = [g for g in self.pending if g.kind == 'wait']
+        m = self.msgs.get(tag)
+        if not waits or m is None:
+            return
+        m.known = True
+        self.pending.remove(waits[0])
+        waits[0].ar.set([(timestamp, id)])
         self.labels.add('announce')
 
     def do_restart(self):
